@@ -544,6 +544,43 @@ pub fn create_line<S: ShortGroupSignatureScheme>(credentials: &IndexMap<String, 
     Some(format!("cr.ok {} {}", j(creds, ";"), j(stmts, ";")))
 }
 
+/// `cr.proofs`: the model's account of which proofs `create` emits (order of the `IndexMap`, variant, and for
+/// signature proofs the number of messages and the revealed indices) vs. the presentation the real code made;
+/// `n` of a real signature proof = revealed + (responses − 2) for both suites
+pub fn create_proofs_line<S: ShortGroupSignatureScheme>(credentials: &IndexMap<String, PresentationCredential<S>>, schema: &PresentationSchema<S>, made: Option<&Presentation<S>>) -> Option<(String, String)> {
+    let line = create_line(credentials, schema)?.replacen("cr.ok", "cr.proofs", 1);
+    let q = match made {
+        None => return Some((line, "err".to_string())),
+        Some(q) => q,
+    };
+    let mut out = vec![];
+    for (key, pr) in &q.proofs {
+        use credx::presentation::PresentationProofs as PP;
+        let (kind, n, rv) = match pr {
+            PP::Signature(sp) => {
+                let v = serde_json::to_value(pr).unwrap_or(Value::Null);
+                let plen = v["Signature"]["pok"]["proof"].as_array().map(|a| a.len()).unwrap_or(0);
+                let mut r: Vec<usize> = sp.disclosed_messages.keys().cloned().collect();
+                r.sort();
+                ("signature", (plen + r.len()).saturating_sub(2), r)
+            }
+            PP::Revocation(_) => ("revocation", 0, vec![]),
+            PP::Equality(_) => ("equality", 0, vec![]),
+            PP::Commitment(_) => ("commitment", 0, vec![]),
+            PP::VerifiableEncryption(_) => ("verenc", 0, vec![]),
+            PP::Range(_) => ("range", 0, vec![]),
+            PP::Membership(_) => ("membership", 0, vec![]),
+            PP::VerifiableEncryptionDecryption(_) => ("ved", 0, vec![]),
+        };
+        if key != pr.id() {
+            out.push(format!("{}!={}", hx(key), hx(pr.id())));
+        }
+        let rv = if rv.is_empty() { "-".to_string() } else { rv.iter().map(|i| i.to_string()).collect::<Vec<_>>().join(",") };
+        out.push(format!("{}/{}/{}/{}", hx(key), kind, n, rv));
+    }
+    Some((line, if out.is_empty() { "-".to_string() } else { out.join(";") }))
+}
+
 /// model lines for the predicate verifiers that share a response with the signature proof (commitment,
 /// verifiable encryption): the recomputed commitments the real verifier hashed for `q` vs. the model's
 /// `commitmentRecommit` / `elgamalRecommit` fed with the model's own sorted lookup of the linked response
